@@ -448,6 +448,125 @@ def alias_name(s: str) -> bool:
     return True
 
 
+# ---- dash prefixes of every length: k dashes (0..5) in front of a short body (the property: "with or without their dash prefix" - exactly that prefix)
+BODY_ALPHA = "aZ1-"
+
+
+def dashed_name(k: int, body: str) -> bool:
+    """
+    pre: 0 <= k <= 5
+    pre: len(body) <= PART["n"]
+    pre: all(c in BODY_ALPHA for c in body)
+    post: _
+    """
+    k = _split_small(k, 6)
+    body = _conc(body, BODY_ALPHA)
+    given = "-" * k + body
+    # long names: exactly one optional "--" is stripped, the rest must be well-formed
+    eff = given[2:] if given.startswith("--") else given
+    exp = _wf(eff, 2)
+    acc = _accepts(lambda: Option(given))
+    if acc != exp or _accepts(lambda: CommandOption(given)) != exp:
+        return False
+    if acc and (Option(given).long_name != eff or CommandOption(given).long_name != eff):
+        return False
+    # short names: exactly one optional "-"
+    seff = given[1:] if given.startswith("-") else given
+    sexp = len(seff) == 1 and _is_letter(seff)
+    sacc = _accepts(lambda: Option("opt", given))
+    if sacc != sexp or (sacc and Option("opt", given).short_name != seff):
+        return False
+    # aliases: a leading run of dashes is not part of a well-formed alias beyond the documented prefix
+    aacc = _accepts(lambda: CommandOption("opt", None, [given]))
+    if aacc:
+        co = CommandOption("opt", None, [given])
+        names = co.long_aliases + co.short_aliases
+        if len(names) != 1 or not _wf(names[0], 1) or not given.endswith(names[0]) or len(given) - len(names[0]) > 2:
+            return False
+    elif _wf(given, 1):
+        return False
+    # argument names take no prefix at all
+    return _accepts(lambda: Argument(given)) == _wf(given, 1)
+
+
+# ---- the default can be replaced after construction: set_default(d) must leave the object as constructing it with d would
+def option_set_default(low: int, tsel: int, d1: int, d2: int) -> bool:
+    """
+    pre: 0 <= low < 16
+    pre: 0 <= tsel < 5
+    pre: d1 == PART["d1"] and 0 <= d2 < 7
+    post: _
+    """
+    flags = 4 * _split_bits(low, 4) + [0, 128, 256, 512, 1024][_split_small(tsel, 5)]
+    d1, d2 = _split_small(d1, 6), _split_small(d2, 7)
+    try:
+        o = Option("opt", "o", flags, None, DEFAULTS[d1])
+    except ValueError:
+        return True
+    try:
+        if d2 == 6:
+            o.set_default()                      # no argument: back to "no default"
+        else:
+            o.set_default(DEFAULTS[d2])
+        changed = True
+    except ValueError:
+        changed = False
+    want = DEFAULTS[0] if d2 == 6 else DEFAULTS[d2]
+    try:
+        ref = Option("opt", "o", flags, None, want)
+        ref_ok = True
+    except ValueError:
+        ref_ok = False
+    if changed != ref_ok and not (not changed and want is None and not o.accepts_value()):
+        return False         # (refusing even "no default" on a value-less option is the documented behaviour of set_default: it stays without a default)
+    if not changed:
+        return o.default == Option("opt", "o", flags, None, DEFAULTS[d1]).default      # a rejected replacement leaves the old default
+    if o.default != ref.default or type(o.default) is not type(ref.default):
+        return False
+    if o.is_multi_valued() and not isinstance(o.default, list):
+        return False
+    if not o.accepts_value() and o.default is not None:
+        return False
+    return True
+
+
+def argument_set_default(flags: int, tsel: int, d1: int, d2: int) -> bool:
+    """
+    pre: 0 <= flags < 8 and 0 <= tsel < 3
+    pre: 0 <= d1 < 6 and 0 <= d2 < 7
+    post: _
+    """
+    flags = _split_bits(flags, 3) + [0, 32, 128][_split_small(tsel, 3)]
+    d1, d2 = _split_small(d1, 6), _split_small(d2, 7)
+    try:
+        a = Argument("arg", flags, None, DEFAULTS[d1])
+    except ValueError:
+        return True
+    try:
+        if d2 == 6:
+            a.set_default()
+        else:
+            a.set_default(DEFAULTS[d2])
+        changed = True
+    except ValueError:
+        changed = False
+    want = DEFAULTS[0] if d2 == 6 else DEFAULTS[d2]
+    try:
+        ref = Argument("arg", flags, None, want)
+        ref_ok = True
+    except ValueError:
+        ref_ok = False
+    if changed != ref_ok and not (not changed and want is None and a.is_required()):
+        return False         # (a required argument refuses set_default() altogether and stays without a default)
+    if not changed:
+        return a.default == Argument("arg", flags, None, DEFAULTS[d1]).default
+    if a.default != ref.default or type(a.default) is not type(ref.default):
+        return False
+    if a.is_multi_valued() and not isinstance(a.default, list):
+        return False
+    return not (a.is_required() and a.default is not None and a.default != [])
+
+
 # ---------------------------------------------------------------- E1: conversions
 
 _INT_OPT = Option("opt", None, Option.REQUIRED_VALUE | Option.INTEGER)
@@ -562,6 +681,13 @@ def conditions(tier):
         conds.append({"name": "long_name[len=%d]" % n, "fn": long_name, "timeout": t, "part": {"n": n}, "bounds": "all names of length %d over {a,Z,1,-,_,e-acute,newline}, with and without '--'" % n})
         conds.append({"name": "argument_name[len=%d]" % n, "fn": argument_name, "timeout": t, "part": {"n": n}, "bounds": "all names of length %d" % n})
         conds.append({"name": "alias_name[len=%d]" % n, "fn": alias_name, "timeout": t, "part": {"n": n}, "bounds": "all aliases of length %d" % n})
+    conds.append({"name": "dashed_name[body<=%d]" % (2 if quick else 3), "fn": dashed_name, "timeout": t, "part": {"n": 2 if quick else 3},
+                  "bounds": "0..5 leading dashes followed by every body of length <= %d over {a,Z,1,-}: Option / CommandOption long name, short name, alias, Argument name" % (2 if quick else 3)})
+    for d1 in range(len(DEFAULTS)):
+        conds.append({"name": "option_set_default[from=%s]" % DEFAULT_NAMES[d1], "fn": option_set_default, "timeout": t, "part": {"d1": d1},
+                      "bounds": "every combination of the four value-mode bits x {no type, each single type}, constructed with default kind %s, then set_default(each of 6 kinds) / set_default()" % DEFAULT_NAMES[d1]})
+    conds.append({"name": "argument_set_default", "fn": argument_set_default, "timeout": t,
+                  "bounds": "REQUIRED/OPTIONAL/MULTI_VALUED bits x {no type, BOOLEAN, FLOAT}, constructed with each of 6 default kinds, then set_default(each of 6 kinds) / set_default()"})
     for n in range(0, 3):
         conds.append({"name": "short_name[len=%d]" % n, "fn": short_name, "timeout": t, "part": {"n": n}, "bounds": "all short names of length %d, with and without '-'" % n})
     for lo, hi in [(-9, 9), (10, 99), (-99, -10), (100, 999), (-999, -100), (1000, 99999), (-99999, -1000), (10 ** 5, 10 ** 6), (-10 ** 6, -10 ** 5)]:
